@@ -91,6 +91,26 @@ fn check_count<'a, S: OSr, P: DDNNFPtr<'a>>(
         ctx.violation(sub, &format!("{} count differs from the semiring sum over models", S::NAME),
             json!({"semiring": S::NAME, "weights": show_w(w), "observed": S::show_r(&got), "expected": expected.show(), "input": info}));
     }
+    // the weight of one (partial) assignment, as the table itself reports it: the product of
+    // the chosen literal weights
+    let mut bits = crate::rng::mix(crate::rng::hash_str(sub) ^ crate::rng::hash_str(&show_w(w).to_string()));
+    let mut lits = Vec::new();
+    let mut prod = S::one();
+    for (v, wv) in w.iter().enumerate() {
+        bits = crate::rng::mix(bits);
+        if bits & 3 == 0 {
+            continue;
+        }
+        let pol = bits & 4 != 0;
+        lits.push(rsdd::repr::Literal::new(rsdd::repr::VarLabel::new(v as u64), pol));
+        prod = prod.mul(if pol { &wv.1 } else { &wv.0 });
+    }
+    ctx.count("assignment_weights", 1);
+    let aw = p.assignment_weight(&lits);
+    if !prod.matches(&aw) {
+        ctx.violation("wmc.assignment_weight", "WmcParams::assignment_weight is not the product of the chosen literal weights",
+            json!({"semiring": S::NAME, "weights": show_w(w), "literals": format!("{:?}", lits), "observed": S::show_r(&aw), "expected": prod.show()}));
+    }
 }
 
 macro_rules! for_all_semirings {
